@@ -152,7 +152,7 @@ func equalWire(a, b reflect.Value, path string) string {
 	case reflect.Struct:
 		for i := 0; i < typ.NumField(); i++ {
 			sf := typ.Field(i)
-			if valgen.Skipped(sf) {
+			if valgen.Skipped(typ, sf) {
 				continue
 			}
 			if d := equalWire(a.Field(i), b.Field(i), path+"."+sf.Name); d != "" {
